@@ -743,7 +743,7 @@ static void gen_multi(std::vector<Base> &out)
   for (int v = 0; v < 2; v++) {
     Builder b;
     b.header(14, v ? 0x8183 : 0x8180, 1, v ? 1 : 2, v ? 1 : 0, 0);
-    b.question(L("example.com"), 6, 1);
+    b.question(L("www.example.com"), 6, 1);
     if (v) rr_a(b, Labels(), QNAME, 5, 0x0a0a0a0aUL);
     for (int i = 0; i < (v ? 1 : 2); i++) {
       b.name(Labels(), QNAME);
